@@ -68,17 +68,16 @@ def model_lines(tools, lines, shards=16):
     """single-line requests (script, mean, record, ...); returns list of answers in order"""
     if not lines: return []
     from concurrent.futures import ThreadPoolExecutor
-    n = max(1, min(shards, (len(lines) + 199) // 200))
-    size = (len(lines) + n - 1) // n
-    chunks = [lines[i:i + size] for i in range(0, len(lines), size)]
+    n = max(1, min(shards, (len(lines) + 49) // 50))
+    chunks = [lines[i::n] for i in range(n)]          # strided: expensive requests cluster
     def work(chunk):
         out = run_model_text(tools, '\n'.join(chunk) + '\n').split('\n')
         if out and out[-1] == '': out.pop()
         if len(out) != len(chunk): raise RuntimeError('model answered %d lines for %d requests' % (len(out), len(chunk)))
         return out
-    res = []
+    res = [None] * len(lines)
     with ThreadPoolExecutor(n) as ex:
-        for out in ex.map(work, chunks): res += out
+        for i, out in enumerate(ex.map(work, chunks)): res[i::n] = out
     return res
 
 def hook_lines(tools, hook, lines, release=False, shards=16):
